@@ -155,13 +155,20 @@ def hexDigit (n : Nat) : Char := if n < 10 then Char.ofNat (48 + n) else Char.of
 def natToHex (n width : Nat) : String :=
   String.ofList ((List.range width).reverse.map fun i => hexDigit ((n / 16^i) % 16))
 
+def insertString (x : String) : List String → List String
+  | [] => [x]
+  | y :: ys => if x ≤ y then x :: y :: ys else y :: insertString x ys
+
+/-- frozenset members are printed sorted (the Python side does the same): sets are unordered -/
+def sortStrings (xs : List String) : List String := xs.foldl (fun acc x => insertString x acc) []
+
 partial def sInner : InnerConst → String
   | .none => "N" | .ellipsis => "E" | .bool true => "T" | .bool false => "F"
   | .int i => s!"i{i}" | .float b => "f" ++ natToHex b 16
   | .complex r i => "c" ++ natToHex r 16 ++ natToHex i 16
   | .str s => sStr s | .bytes h => "y" ++ h
   | .tuple xs => " ".intercalate (s!"t{xs.length}" :: xs.map sInner)
-  | .fset xs => " ".intercalate (s!"z{xs.length}" :: xs.map sInner)
+  | .fset xs => " ".intercalate (s!"z{xs.length}" :: sortStrings (xs.map sInner))
 
 def sArgs (a : Args) : String :=
   " ".intercalate ["A", sList sStr a.posOnly, sList sStr a.posOrKw, sOpt sStr a.varPos, sList sStr a.kwOnly, sOpt sStr a.varKw]
